@@ -18,11 +18,10 @@ type TraceWriter struct {
 }
 
 type GenesisLine struct {
-	Kind  string            `json:"kind"`
-	Cfg   Config            `json:"cfg"`
-	Names map[string]string `json:"names"`
-	Accs  []string          `json:"accs"` // account names in address order
-	Post  State             `json:"post"`
+	Kind  string                 `json:"kind"`
+	Cfg   map[string]interface{} `json:"cfg"`
+	Names map[string]string      `json:"names"`
+	Post  State                  `json:"post"`
 }
 
 type EventLine struct {
@@ -46,11 +45,7 @@ func (t *TraceWriter) Genesis(c *Chain) error {
 	for k, v := range c.concr {
 		names[k] = v
 	}
-	var accs []string
-	for _, a := range c.Accs {
-		accs = append(accs, a.Name)
-	}
-	b, err := json.Marshal(GenesisLine{Kind: "genesis", Cfg: c.Cfg, Names: names, Accs: accs, Post: c.Project()})
+	b, err := json.Marshal(GenesisLine{Kind: "genesis", Cfg: c.SpecConfig(), Names: names, Post: c.Project()})
 	if err != nil {
 		return err
 	}
@@ -353,6 +348,27 @@ func (d *Driver) Next() Event {
 			o := cands[d.R.Intn(len(cands))]
 			prov := o.Provider
 			return Event{Kind: "Cancel", Creator: o.Creator, Provider: prov, Order: o.Id}
+		case "Ready":
+			var cands []POrder
+			for _, o := range d.St.Orders {
+				if o.Status == 0 {
+					cands = append(cands, o)
+				}
+			}
+			if len(cands) == 0 {
+				continue
+			}
+			o := cands[d.R.Intn(len(cands))]
+			cr, pv := d.actFor(o.Provider)
+			return Event{Kind: "Ready", Creator: cr, Provider: pv, Order: o.Id}
+		case "CancelAny":
+			if len(d.St.Orders) == 0 {
+				continue
+			}
+			o := d.St.Orders[d.R.Intn(len(d.St.Orders))]
+			att := d.pick(d.P.Nodes)
+			cr, pv := d.actFor(att)
+			return Event{Kind: "Cancel", Creator: cr, Provider: pv, Order: o.Id}
 		case "Terminate":
 			if len(d.St.Metas) == 0 {
 				continue
@@ -429,10 +445,113 @@ func (d *Driver) Next() Event {
 	return d.blocksEvent()
 }
 
+// allAccounts lists every named account (nodes, payment accounts, hot keys, strangers).
+func (d *Driver) allAccounts() []string {
+	var out []string
+	for _, a := range d.C.Accs {
+		out = append(out, a.Name)
+	}
+	return out
+}
+
+func (d *Driver) allDids() []string {
+	var out []string
+	for _, x := range d.C.Dids {
+		out = append(out, x.Name)
+	}
+	return out
+}
+
+// Twist turns a well-formed event into an adversarial variant: another signer, an
+// altered or missing signature, a mismatching owner field, a foreign creator or
+// claimed provider, a crafted commit id. The real code decides what happens.
+func (d *Driver) Twist(e Event) Event {
+	signed := e.Kind == "Store" || e.Kind == "Terminate" || e.Kind == "Renew" || e.Kind == "Permission"
+	for tries := 0; tries < 10; tries++ {
+		switch d.R.Intn(9) {
+		case 0: // signed by someone else, owner field untouched
+			if signed {
+				e.Signer = d.pick(d.allDids())
+				return e
+			}
+		case 1: // a stranger's own, correctly signed request
+			if signed {
+				x := d.pick(d.allDids())
+				e.Signer, e.Owner = x, x
+				return e
+			}
+		case 2: // altered / missing / spoofed signature
+			if signed {
+				e.SigMode = []string{"stale", "none", "kidspoof"}[d.R.Intn(3)]
+				if e.SigMode == "kidspoof" {
+					e.Signer = d.pick(d.allDids())
+				}
+				return e
+			}
+		case 3: // someone else submits
+			e.Creator = d.pick(d.allAccounts())
+			return e
+		case 4: // someone else submits claiming to act for his own node
+			e.Creator = d.pick(d.allAccounts())
+			e.Provider = d.pick(d.P.Nodes)
+			return e
+		case 5: // claimed provider differs
+			e.Provider = d.pick(d.P.Nodes)
+			return e
+		case 6: // crafted commit id
+			if e.Kind == "Store" {
+				newc := fmt.Sprintf("c%d", d.nc+1)
+				d.nc++
+				cur := ""
+				if m := d.findMeta(e.Data); m != nil {
+					cur = m.Commit
+				}
+				opts := []string{"|" + newc, newc, e.Data + "|" + newc, newc + "|" + e.Data, cur + "~|" + newc, "c999|" + newc, cur + "|" + newc + "|" + e.Data, cur + "|" + cur}
+				e.Commit = opts[d.R.Intn(len(opts))]
+				return e
+			}
+		case 7: // sponsored payment: payer did named explicitly
+			if e.Kind == "Store" {
+				e.PayDid = d.pick(d.allDids())
+				if d.R.Intn(2) == 0 {
+					e.Creator = d.P.PayAcc[e.PayDid]
+				}
+				return e
+			}
+		case 8: // odd numeric fields
+			if e.Kind == "Store" {
+				switch d.R.Intn(4) {
+				case 0:
+					e.Replica = 0
+				case 1:
+					e.Dur = 3599
+				case 2:
+					e.Size = 0
+				case 3:
+					e.Timeout = 0
+				}
+				return e
+			}
+			if e.Kind == "Complete" {
+				e.Size++
+				return e
+			}
+		}
+	}
+	return e
+}
+
 // Run performs setup and n random events.
 func (d *Driver) Run(n int) {
 	d.Setup()
 	for i := 0; i < n && d.Stop == ""; i++ {
-		d.do(d.Next())
+		e := d.Next()
+		if e.Kind != "Blocks" && d.R.Intn(100) < d.P.Adversarial {
+			e = d.Twist(e)
+		}
+		d.do(e)
+	}
+	if d.Stop == "" {
+		d.do(Event{Kind: "Blocks", N: 1})
 	}
 }
